@@ -321,6 +321,10 @@ func (x *Exec) builtinExtern(st *State, key string, c *ssa.CallCommon, a []*Val,
 		r := x.D.fresh("rand", SReal)
 		x.assume(st, tAnd(tCmp(">=", r, realLitStr("0")), tCmp("<", r, realLitStr("1"))))
 		return &Val{K: VFloat, Typ: rt, F: []*Val{scalar(tFalse, nil), scalar(r, nil)}}, true, nil
+	case "time.(Duration).Seconds":
+		use()
+		x.usesReal = true
+		return &Val{K: VFloat, Typ: rt, F: []*Val{scalar(tFalse, nil), scalar(mk("/", SReal, mk("to_real", SReal, T(0)), realLitStr("1000000000")), nil)}}, true, nil
 	case "math.IsNaN":
 		use()
 		return boolVal(a[0].F[0].T), true, nil
